@@ -28,7 +28,7 @@ ASSUMPTIONS = [
 ]
 REQUIRED_CLAUSES = ["no-stall", "completes-exactly-once", "step-barrier", "every-allocation-runs-once", "iterations-not-cut-short", "completed-by-stops-others", "completed-by-ends-element", "complete-sent-at-most-once", "any-not-before-first-finish"]
 OPTIONAL_CLAUSES = ["complete-not-lost"]
-REQUIRED_FEATURES = {"idle-between-rows-shape": 5, "throttled-completing-task-shape": 3, "parallel": 5, "completed-by-name": 3, "completed-by-any": 3, "over-commit": 3, "multi-host": 3, "multi-worker": 5, "adversarial-delays": 3, "empty-worker-cores": 2}
+REQUIRED_FEATURES = {"idle-between-rows-shape": 5, "two-completed-by-elements-in-test-mode": 3, "throttled-completing-task-shape": 3, "parallel": 5, "completed-by-name": 3, "completed-by-any": 3, "over-commit": 3, "multi-host": 3, "multi-worker": 5, "adversarial-delays": 3, "empty-worker-cores": 2}
 BUDGET = {"quick": {"cases": 900, "seconds": 34}, "thorough": {"cases": 20000, "seconds": 700}}
 EPS = 1e-6
 
@@ -121,6 +121,19 @@ def gen_case(rng):
         long_["clients"] = 1
         n += 2
         elements.insert(rng.randrange(len(elements) + 1), {"parallel": True, "tasks": [comp, long_], "completed_by": comp["name"]})
+    twice = (not window) and (not throttled) and rng.random() < 0.06
+    if twice:
+        # Targeted shape: TWO completed-by elements in one schedule, run in test mode (no pause between the steps; long time periods are capped at
+        # ten seconds): whatever the driver remembers about "told everybody to complete" has to be forgotten again for the second element
+        for _ in range(2):
+            comp = gen_task(rng, f"t{n}", "completing", 0.05)
+            comp.update({"clients": rng.choice([1, 2]), "warmup_iterations": 0, "iterations": rng.choice([1, 2]), "requests": [[{"wire": 1}]], "svc": {"mode": "const", "base": 0.05, "seed": 1}})
+            comp.pop("target_throughput", None), comp.pop("schedule", None)
+            long_ = gen_task(rng, f"t{n + 1}", "long", 0.05)
+            long_.update({"clients": rng.choice([1, 2]), "warmup_time_period": 0, "time_period": 600, "requests": [[{"wire": 1}]], "svc": {"mode": "const", "base": 0.05, "seed": 1}})
+            long_.pop("warmup_iterations", None), long_.pop("iterations", None)
+            n += 2
+            elements.append({"parallel": True, "tasks": [comp, long_], "completed_by": comp["name"]})
     nhosts = rng.choice([1, 1, 1, 2, 3])
     case = {
         "elements": elements,
@@ -137,6 +150,9 @@ def gen_case(rng):
     if throttled:
         case["cores"], case["hosts"], case["test_mode"] = 1, ["localhost"], False
         case["throttled_completing_shape"] = True
+    if twice:
+        case["test_mode"], case["delay"], case["wakeup_jitter"] = True, rng.choice(["zero", "small"]), 0.0
+        case["two_completed_by_elements_in_test_mode"] = True
     if window:
         case["cores"] = max(2, case["cores"])
         case["delay"] = rng.choice(["small", "heavy", "adversarial"])
@@ -340,11 +356,16 @@ def check_trace(ctx, case, tr, problems, feats, expect_success=True):
             wake = 0.5 if case.get("test_mode") else 5.0
             s_max = max([e.get("vt_finish", e["vt_begin"]) - e["vt_begin"] for e in tr.rec.logical if task_el.get(e["task"]) == ei] + [0.0])  # longest logical request
             bound = 3 * wake + 3 + 6 * k.max_delay + 3 * s_max + 3 * case.get("wakeup_jitter", 0.0) + 2.0
+            run_index = {id(r): i for i, r in enumerate(tr.rec.runs)}
             for r in el_runs:
                 if not info["tasks"][r["task"]]["may_cut"]:
                     continue
                 ctx.clause("completed-by-ends-element")
-                if r["vt_end"] > t_done + bound:
+                # a throttled client may sleep until its next slot - with a Poisson schedule for any length of time - and, because the executor looks
+                # at the flag only after a request, then issues that ONE request before it stops: only a second request begun after the bound shows
+                # that the client carried on
+                beyond = [e for e in tr.rec.logical if e["run"] == run_index[id(r)] and e["vt_begin"] > t_done + bound]
+                if r["vt_end"] > t_done + bound and len(beyond) >= 2:
                     wid = worker_of_client.get(r["client"])
                     problems.append(("completed-by-ends-element", f"element {ei}: {cb!r} was done at vt={t_done:.3f} but client {r['client']} (worker {wid}) kept running {r['task']} until "
                                      f"vt={r['vt_end']:.3f} (bound {bound:.1f}s: wake-ups, message delays, requests in flight)", {"worker_had_lost_cct": wid in lost}))
@@ -427,6 +448,8 @@ def features_of(case):
         f.add("test-mode")
     if case.get("window_shape"):
         f.add("idle-between-rows-shape")
+    if case.get("two_completed_by_elements_in_test_mode"):
+        f.add("two-completed-by-elements-in-test-mode")
     if case.get("throttled_completing_shape"):
         f.add("throttled-completing-task-shape")
     return f
